@@ -111,7 +111,7 @@ def _child_run(case: dict, workdir: str) -> dict:
     return res
 
 
-def run_one(case: dict, timeout: float = 5.0) -> dict:
+def run_one(case: dict, timeout: float = 5.0, retry: bool = True) -> dict:
     """fork a child, run the case, return the result dict."""
     warm()
     workdir = tempfile.mkdtemp(prefix='bvc_')
@@ -146,6 +146,9 @@ def run_one(case: dict, timeout: float = 5.0) -> dict:
     if os.WIFSIGNALED(st):
         sig = os.WTERMSIG(st)
         if sig == signal.SIGALRM:
+            if retry:
+                # slow is not the same as non-terminating: one more attempt with a much larger budget
+                return run_one(case, timeout=max(60.0, timeout * 12), retry=False)
             return {'status': 'timeout', 'exit': None, 'files': {}, 'stdout': '', 'wall': time.time() - t0}
         return {'status': 'crash', 'exit': -sig, 'files': {}, 'stdout': ''}
     if not data:
